@@ -3,6 +3,7 @@ package checks
 import (
 	"errors"
 	"fmt"
+	"os"
 	"sort"
 	"strings"
 	"testing"
@@ -290,24 +291,46 @@ func srvPopulation(sc *SrvScenario) string {
 
 func drawC05(rt *rapid.T, tier string) SrvScenario {
 	o := srvDrawOpts{backends: []string{"cdb", "cdb", "cdb", "cdb", "rdb1", "rdb2"}, maxClients: 4, maxQueries: 6, maxOps: 5,
-		faults: []string{"missing", "garbage", "nokey", "inject", "lowio"}, proc: 4}
+		faults: []string{"missing", "garbage", "nokey", "inject", "lowio"}, proc: 4, cleanupDirect: true}
 	if tier == "thorough" {
 		o.backends = []string{"cdb", "cdb", "rdb1", "rdb2"}
 		o.maxQueries = 8
 		o.maxOps = 6
 	}
-	return drawSrv(rt, o)
+	sc := drawSrv(rt, o)
+	// the property does not depend on the response cache: one run in three has it switched on (the
+	// generation oracles are the same; the differential against a cache-off handler is C12's)
+	if rapid.IntRange(0, 2).Draw(rt, "cache_on") == 0 || os.Getenv("VERIF_C05_CACHE") != "" {
+		sc.Cache = true
+		sc.LRUSize = rapid.SampledFrom([]int{2, 1024}).Draw(rt, "lru")
+		// few cache keys, so that a later query meets what an earlier one left in the cache
+		pool := []int{rapid.SampledFrom([]int{0, 1, 2, 3, 5, 6, 8, 9, 10, 11, 19}).Draw(rt, "focus_q1")} // stamped, not weighted
+		if rapid.Bool().Draw(rt, "two_keys") {
+			pool = append(pool, rapid.IntRange(0, len(gen.Queries)-1).Draw(rt, "focus_q2"))
+		}
+		cl := rapid.IntRange(0, len(gen.Clients)-1).Draw(rt, "focus_client")
+		for ci := range sc.Clients {
+			for qi := range sc.Clients[ci] {
+				sc.Clients[ci][qi].Q = pool[(ci+qi+sc.Clients[ci][qi].Q)%len(pool)]
+				sc.Clients[ci][qi].Client = cl
+			}
+		}
+	}
+	return sc
 }
 
 func runC05(t *testing.T, sc SrvScenario, keep bool) *core.Result {
 	res := &core.Result{}
-	sc.Cache = false
 	h := runSrv(t, &sc, keep, res, nil)
 	if res.HarnessErr != "" || h.Sim == nil {
 		return res
 	}
 	judgeGenerations(&sc, h, res, "stale-read")
-	judgeAgainstGeneration(&sc, h, res)
+	if sc.Cache {
+		res.Probe("response_cache_on")
+	} else {
+		judgeAgainstGeneration(&sc, h, res)
+	}
 	if sc.Proc {
 		res.Probe("whole_process_run")
 		// "a reload that fails leaves the server answering from the old generation as if nothing
